@@ -450,6 +450,11 @@ def mon_wake(run):
             continue
         if ps[0][4] == wt:
             continue    # (never happens: an owner does not wake itself)
+        # the completion this wake-up announces = the waker's last final store before it; a stream's poll that already returned that
+        # item (it saw the store before the peer got to `wake`) has consumed it: polls after it belong to the stream's next wait
+        store = max([j for j in range(wi) if run.events[j][0] == wt and run.events[j][1] == "st"], default=-1)
+        if any((not p[3].startswith("pending")) and store < p[1] < wi for p in ps):
+            continue
         pend_before = [p for p in ps if p[3].startswith("pending") and p[1] < wi]
         inflight = [p for p in ps if p[0] < wi < p[1]]
         if pend_before and pend_before[-1][2] != w and not any(p[2] == w for p in inflight):
